@@ -370,6 +370,7 @@ func DumpFuncs(repo, verif string) int {
 		for _, fn := range pkgFuncs(sp) {
 			if fn.Parent() == nil && fn.Synthetic == "" {
 				names = append(names, fn.String())
+				names = append(names, "SIG "+fn.String()+"\t"+an.SigString(fn))
 				if fn.Signature.Recv() != nil && len(fn.Params) > 0 {
 					if n := an.NamedOf(fn.Signature.Recv().Type()); n != nil && n.Obj().Pkg() != nil {
 						names = append(names, "RECV "+n.Obj().Pkg().Path()+"."+n.Obj().Name()+" "+fn.Params[0].Name())
